@@ -19,7 +19,9 @@ allocation sequence => identical address order, only the prior contents of the h
 ConstrainedMajorizationLayout on small graphs with coincident / nearly coincident / distinct start positions, compound constraints off / on,
 repeated with unrelated layouts of OTHER graphs with coincident nodes, a layout with extreme settings and heap fills in between (1e-9; measured:
 bit-identical), translated start and permuted node / edge order (judged on the class where HEAD is measurably stable).  (e) the same for
-vpsc::IncSolver and removeoverlaps (same-type object with extreme settings in between, heap fills, fresh-process fill invariance)."""
+vpsc::IncSolver and removeoverlaps (same-type object with extreme settings in between, heap fills, fresh-process fill invariance).
+(b2) the static vpsc::Solver on DAGs: solve() / satisfy() twice, translated, and solve() under renumbered variables / reordered constraints
+(random renumberings; every permutation x forward / reversed constraint order for 3-5 variables): positions must agree, base run certified by kkt_ok."""
 import os, json, math, collections
 from fractions import Fraction as F
 from vlib import common as C
@@ -107,6 +109,18 @@ def part_a(res, rng, exe, drv, n_inst, stats):
                 dcmds.append('G %d %s' % (mode + 10, c.split(' ', 2)[2]))
                 dkeys.append((k, mode, pk, pd))
     rc, dout, err, _ = L.run_lines([exe], dcmds)
+    # a crash or a failed assertion on this (valid) input is a failure of its own, never part of the known finding
+    # scanline_addr_tiebreak_dup_ids, which is about the ORDER of a complete constraint set only (DESIGN 9.18)
+    if rc != 0 or len(dout) != len(dcmds):
+        res.violation({'what': 'harness c09_rect crashed in generateX/YConstraints called with Variables that all have id 0', 'rc': rc,
+                       'stderr': err[-800:], 'replay': 'echo "%s" | build/bin/c09_rect-exc-*' % dcmds[min(len(dout), len(dcmds) - 1)]})
+    else:
+        for key, cmd, line in zip(dkeys, dcmds, dout):
+            if int(line.split()[1]) % 10 != 0:
+                res.violation({'what': 'generateX/YConstraints called with Variables that all have id 0 failed an assertion / threw',
+                               'where': line.split(' # ')[1] if ' # ' in line else None, 'input': insts[key[0]].to_json(),
+                               'replay': 'echo "%s" | build/bin/c09_rect-exc-*' % cmd})
+                break
     dgroups = {}
     for key, cmd, line in zip(dkeys, dcmds, dout):
         dgroups.setdefault(key[:2], []).append((key, cmd, line))
@@ -381,6 +395,210 @@ def part_b(res, rng, exe, n_inst, stats):
                               fingerprint='vpsc_order_dependent_suboptimal' if subopt else None)
             else:
                 stats['b_permute_ok'] += 1
+    return dt
+
+
+# ------------------------------------------------------------------------------------------ (b2) static Solver
+def static_instance(rng, small=False):
+    """a DAG problem for the static vpsc::Solver (its domain): scale 1, inequalities only, dyadic data"""
+    n = rng.range(3, 5) if small else rng.range(2, 8)
+    if small or rng.chance(1, 2):
+        des = [F(rng.range(0, 20)) for _ in range(n)]
+        ws = [F(rng.choice([1, 1, 2, 3])) for _ in range(n)]
+    else:
+        des = [F(rng.range(-20, 20) * rng.choice([1, 1, 2]), rng.choice([1, 2, 4])) for _ in range(n)]
+        if rng.chance(1, 3):
+            des = [des[0]] * n
+        ws = [F(rng.choice([1, 1, 1, 2, 4, 3, 10])) for _ in range(n)]
+    order = rng.shuffle(range(n))
+    pos = {v: i for i, v in enumerate(order)}
+    cs = []
+    for _ in range(rng.range(1, n + 1) if small else rng.range(1, 2 * n)):
+        a, b = rng.below(n), rng.below(n)
+        if a == b:
+            continue
+        if pos[a] > pos[b]:
+            a, b = b, a
+        cs.append((a, b, F(rng.range(0, 6), rng.choice([1, 1, 2])), 0))
+    if not cs:
+        cs = [(order[0], order[1], F(1), 0)]
+    return des, ws, cs
+
+
+def cmd_S(mode, des, ws, cs):
+    return 'S %d %d %d %s %s' % (mode, len(des), len(cs), ' '.join('%s %s' % (fs(d), fs(w)) for d, w in zip(des, ws)),
+                                ' '.join('%d %d %s' % (l, r, fs(g)) for l, r, g, e in cs))
+
+
+def parse_S(line):
+    if line is None or line.startswith('SX') or not line.startswith('S'):
+        return None
+    a, b = line[2:].split('|')
+    act = [int(x) for x in b.split()]
+    return [L.hexq(x) for x in a.split()], [0] * len(act), act
+
+
+def permuted(des, ws, cs, perm, corder):
+    """the same problem with variable i renumbered perm[i] and the constraints supplied in the order corder"""
+    n = len(des)
+    inv = [0] * n
+    for i, p in enumerate(perm):
+        inv[p] = i
+    return [des[inv[j]] for j in range(n)], [ws[inv[j]] for j in range(n)], [(perm[cs[c][0]], perm[cs[c][1]], cs[c][2], cs[c][3]) for c in corder]
+
+
+def all_perms(n):
+    import itertools
+    return [list(p) for p in itertools.permutations(range(n))]
+
+
+def part_bs(res, rng, exe, n_inst, n_small, stats):
+    """the static vpsc::Solver (DAG inputs, scale 1): solve() and satisfy() twice in one process with unrelated work in between
+    (bit-identical), in a translated frame (1e-9), and solve() under renumbered variables / reordered constraints - the optimum is
+    unique (C02_optimum_unique, C02_order_independent, C20_vpsc_permute_checked), so every ordering must return the same positions;
+    the base solve() of every instance is also decided by the extracted kkt_ok certificate, which names the run that is wrong.
+    satisfy() alone promises feasibility only, not a unique result: under renumbering it is judged on feasibility.
+    Families: random DAGs with 3 random renumberings + the reversed constraint order; small DAGs (3-5 variables) under EVERY variable
+    permutation x constraint order forward / reversed; the corpus (corpus/c20_static_permute.json) first."""
+    groups = []      # (des, ws, cs, [(perm, corder)], tag)
+    cp = os.path.join(C.VERIF, 'corpus', 'c20_static_permute.json')
+    if os.path.exists(cp):
+        for d in json.load(open(cp))['problems']:
+            des, ws = [F(x) for x in d['desired']], [F(x) for x in d['weights']]
+            cs = [(l, r, F(g), 0) for l, r, g in d['constraints_l_r_gap']]
+            m = len(cs)
+            perms = all_perms(len(des)) if len(des) <= 5 else [rng.shuffle(range(len(des))) for _ in range(60)]
+            pl = [(p, co) for p in perms for co in (list(range(m)), list(range(m - 1, -1, -1)))]
+            for p, co in d.get('orderings', []):
+                pl.insert(0, (p, co))
+            groups.append((des, ws, cs, pl, 'corpus'))
+    for k in range(n_small):
+        des, ws, cs = static_instance(rng, small=True)
+        m = len(cs)
+        groups.append((des, ws, cs, [(p, co) for p in all_perms(len(des)) for co in (list(range(m)), list(range(m - 1, -1, -1)))], 'small-all-perms'))
+    for k in range(n_inst):
+        des, ws, cs = static_instance(rng)
+        n, m = len(des), len(cs)
+        pl = [(list(range(n)), list(range(m - 1, -1, -1)))] + [(rng.shuffle(range(n)), rng.shuffle(range(m))) for _ in range(3)]
+        groups.append((des, ws, cs, pl, 'random'))
+    cmds, index = [], []
+    for des, ws, cs, pl, tag in groups:
+        t = F(rng.range(-2 ** 16, 2 ** 16), 1024)
+        start = len(cmds)
+        b0, b1 = cmd_S(0, des, ws, cs), cmd_S(1, des, ws, cs)
+        cmds += [b0, 'J %d %d' % (rng.range(10, 400), rng.next() % 10 ** 9), b0, cmd_S(0, [d + t for d in des], ws, cs),
+                 b1, 'J %d %d' % (rng.range(10, 200), rng.next() % 10 ** 9), b1, cmd_S(1, [d + t for d in des], ws, cs)]
+        for perm, co in pl:
+            cmds.append(cmd_S(0, *permuted(des, ws, cs, perm, co)))
+        p1, c1 = pl[len(pl) // 2]
+        cmds.append(cmd_S(1, *permuted(des, ws, cs, p1, c1)))
+        index.append((start, t))
+    rc, out, err, dt = L.run_lines([exe], cmds)
+    if rc != 0 or len(out) != len(cmds):
+        res.violation({'what': 'harness c20_replay crashed in the static Solver run', 'rc': rc, 'stderr': err[-1500:],
+                       'command': cmds[len(out)] if len(out) < len(cmds) else None})
+        return dt
+    certs, cerr, dtc = certify_runs([(des, ws, cs, parse_S(out[index[g][0]])) for g, (des, ws, cs, pl, tag) in enumerate(groups)])
+    if cerr[0] != 0:
+        res.violation({'what': 'the certificate driver (extracted kkt_ok) failed on the static Solver replay runs', 'rc': cerr[0], 'stderr': cerr[1]}, no_input=True)
+    stats['bs_cert_time_s'] = round(dtc, 2)
+    tol, ctol = F(1, 10 ** 9), F(1, 10 ** 5)
+    rep = 'printf "%s\\n" | build/bin/c20_replay-plain-*'
+    reported = 0
+    for g, (des, ws, cs, pl, tag) in enumerate(groups):
+        start, t = index[g]
+        n = len(des)
+        o = out[start:start + 8 + len(pl) + 1]
+        stats['bs_instances'] += 1
+        stats['bs_runs'] += len(o) - 2
+        stats['bs_' + tag] += 1
+        inp = {'solver': 'vpsc::Solver (static)', 'desired': [str(d) for d in des], 'weights': [str(w) for w in ws],
+               'constraints_l_r_gap': [[l, r, str(gp)] for l, r, gp, e in cs], 'family': tag}
+        sc = max([F(1)] + [abs(d) for d in des] + [abs(gp) for _, _, gp, _ in cs])
+
+        def feas(x, eps=F(1, 10 ** 7)):
+            return all(x[r] - x[l] - gp >= -eps for l, r, gp, e in cs)
+
+        def cost(x):
+            return sum(w * (a - dd) ** 2 for w, a, dd in zip(ws, x, des))
+        bad = None
+        for mode, i0, name in ((0, 0, 'solve()'), (1, 4, 'satisfy()')):
+            if o[i0] != o[i0 + 2]:
+                bad = {'what': 'static Solver::%s: same problem solved twice in one process (unrelated allocation and library calls in between) gives different results' % name,
+                       'first': o[i0], 'second': o[i0 + 2], 'replay': rep % '\\n'.join(cmds[start + i0:start + i0 + 3])}
+                break
+            first, trans = parse_S(o[i0]), parse_S(o[i0 + 3])
+            if first is None:
+                bad = {'what': 'static Solver::%s threw on a feasible acyclic problem' % name, 'replay': rep % cmds[start + i0]}
+                break
+            if not feas(first[0]):
+                bad = {'what': 'static Solver::%s returned with a violated constraint (1e-7) on a feasible acyclic problem' % name,
+                       'result': [float(x) for x in first[0]], 'replay': rep % cmds[start + i0]}
+                break
+            if trans is None or any(abs((b - t) - a) > tol for a, b in zip(first[0], trans[0])):
+                bad = {'what': 'static Solver::%s: adding t to every desired position does not add t to every result (1e-9)' % name, 't': str(t),
+                       'result': [float(x) for x in first[0]], 'result_translated_minus_t': [float(x - t) for x in trans[0]] if trans else None,
+                       'replay': rep % (cmds[start + i0] + '\\n' + cmds[start + i0 + 3])}
+                break
+            stats['bs_translate_ok'] += 1
+            stats['bs_translate_bit_exact'] += all((b - t) == a for a, b in zip(first[0], trans[0]))
+            stats['bs_translate_active_flags_differ'] += first[2] != trans[2]
+        if bad is None:
+            first = parse_S(o[0])
+            cert = certs[g]
+            base_ok = None
+            if cert is not None:
+                stats['bs_cert_runs'] += 1
+                base_ok = max([abs(a - b) for a, b in zip(cert, first[0])] or [F(0)]) <= ctol * sc
+            else:
+                stats['bs_cert_missing'] += 1
+            if base_ok is False:
+                bad = {'what': 'static Solver::solve() (original numbering): the result differs from the kkt_ok-certified unique optimum of its instance, '
+                               'so the runs of the renumbered problem cannot all agree with it', 'result': [float(x) for x in first[0]],
+                       'certified_optimum': [float(x) for x in cert], 'cost': float(cost(first[0])), 'cost_optimum': float(cost(cert)), 'replay': rep % cmds[start]}
+            differ = 0
+            for j, (perm, co) in enumerate(pl):
+                pr = parse_S(o[8 + j])
+                if pr is None:
+                    if bad is None:
+                        bad = {'what': 'static Solver::solve() threw for a renumbering of a feasible acyclic problem', 'variable_permutation': perm, 'constraint_order': co,
+                               'replay': rep % cmds[start + 8 + j]}
+                    continue
+                back = [pr[0][perm[i]] for i in range(n)]
+                stats['bs_permute_pairs'] += 1
+                if any(abs(a - b) > tol * sc for a, b in zip(first[0], back)):
+                    differ += 1
+                    if bad is None or 'variable_permutation' not in bad:
+                        c1, c2 = cost(first[0]), cost(back)
+                        both = feas(first[0]) and feas(back)
+                        which = None
+                        if cert is not None:
+                            which = 'the original numbering' if base_ok is False else 'the renumbered run'
+                        bad = {'what': 'static Solver::solve(): result depends on the numbering / order of variables and constraints (1e-9)'
+                                       + ('; both results are feasible but their costs differ, so one of them is not the optimum' if both and abs(c1 - c2) > F(1, 10 ** 9) * max(1, c1) else '')
+                                       + ('; by the kkt_ok certificate the wrong one is %s' % which if which else ''),
+                               'variable_permutation': perm, 'constraint_order': co, 'result': [float(x) for x in first[0]],
+                               'result_permuted_mapped_back': [float(x) for x in back], 'cost': float(c1), 'cost_permuted': float(c2), 'both_feasible': both,
+                               'certified_optimum': [float(x) for x in cert] if cert is not None else None,
+                               'replay': rep % (cmds[start] + '\\n' + cmds[start + 8 + j])}
+                else:
+                    stats['bs_permute_ok'] += 1
+            if differ:
+                stats['bs_permute_differs'] += differ
+                bad['orderings_that_differ'] = '%d of %d' % (differ, len(pl))
+            ps = parse_S(o[8 + len(pl)])
+            if bad is None and (ps is None or not feas([ps[0][pl[len(pl) // 2][0][i]] for i in range(n)])):
+                bad = {'what': 'static Solver::satisfy() on a renumbered feasible acyclic problem threw or returned with a violated constraint (1e-7)',
+                       'variable_permutation': pl[len(pl) // 2][0], 'constraint_order': pl[len(pl) // 2][1], 'replay': rep % cmds[start + 8 + len(pl)]}
+        if bad is not None:
+            stats['bs_failing_instances'] += 1
+            if reported < 3:
+                reported += 1
+                bad['input'] = inp
+                res.violation(bad)
+        elif len(SAMPLES) < 6 and tag != 'corpus' and any(parse_S(o[0])[2]):
+            SAMPLES.append({'call': 'static Solver solve()/satisfy() twice / translated / %d renumberings' % len(pl), 'input': inp, 't': str(t),
+                            'result': [float(x) for x in parse_S(o[0])[0]]})
     return dt
 
 
@@ -1637,6 +1855,9 @@ def run(tier):
     ta = part_a(res, rng.fork(), exe_r, drv, 1500 if thorough else 400, stats)
     tb = part_b(res, rng.fork(), exe, 6000 if thorough else 1500, stats)
     tc = part_c(res, rng.fork(), exe, 1200 if thorough else 250, stats)
+    bs_stats = collections.defaultdict(int)
+    tbs = part_bs(res, C.SplitMix64(C.get_seed() ^ 0xC20B5), exe, 2500 if thorough else 350, 60 if thorough else 14, bs_stats)
+    stats.update(bs_stats)
     exe_x = C.build_harness('c20_replay', ['libvpsc', 'libavoid'], 'exc', extra_srcs=[os.path.join(C.COLA, 'libcola', 'pseudorandom.cpp')])
     hist = new_hist()
     c2stats = collections.defaultdict(int)
@@ -1651,7 +1872,7 @@ def run(tier):
     hist['features'] = dict(hist['features'])
     top = sorted(hist['parameter_combinations_positive'].items(), key=lambda kv: -kv[1])
     hist['parameter_combinations_positive'] = {'distinct': len(top), 'most_frequent': dict(top[:25])}
-    nruns = stats['a_runs'] + 5 * stats['b_instances'] + 12 * stats['c_scenes'] + 14 * stats['c2_scenes'] + 2 * stats['a2_pairs'] + stats['a2_interleaved_calls'] \
+    nruns = stats['a_runs'] + 5 * stats['b_instances'] + stats['bs_runs'] + 12 * stats['c_scenes'] + 14 * stats['c2_scenes'] + 2 * stats['a2_pairs'] + stats['a2_interleaved_calls'] \
         + 10 * stats['c3_scenes'] + 8 * stats['e_calls'] + 11 * stats['d_layouts']
     res.cov.update({'evaluations': nruns,
                     'distinct_nontrivial': stats['a_groups'] + stats['b_translate_ok'] + stats['c_cost_comparisons'] + stats['c2_cost_comparisons'] + stats['a2_pairs']
@@ -1664,7 +1885,7 @@ def run(tier):
                     'exhaustive': False, 'counts': stats, 'samples': SAMPLES[:8],
                     'routing_configuration_histogram': hist,
                     'traces_validated_against_impl': nruns,
-                    'timings_s': {'scanline_replay': round(ta, 2), 'incsolver_replay': round(tb, 2), 'routing_replay': round(tc, 2),
+                    'timings_s': {'scanline_replay': round(ta, 2), 'incsolver_replay': round(tb, 2), 'static_solver_replay': round(tbs, 2), 'routing_replay': round(tc, 2),
                                   'routing_replay_configured': round(tc2, 2), 'removeoverlaps_interleaved': round(ta2, 2),
                                   'routing_default_configuration': round(tc3, 2), 'incsolver_removeoverlaps_fill': round(te, 2), 'libcola_layout_replay': round(td, 2)}})
     res.cov['correspondence_disagreements'] = corr_fail[:3]
@@ -1714,7 +1935,14 @@ META = {
                   'run time). IncSolver replay: same problem twice (bit-identical), translated (1e-9; bit-exact is not claimed because block positions are '
                   'weighted means), permuted - each real result is compared with the kkt_ok-certified optimum of its own instance (1e-5 * scale) and the '
                   'certified optima are compared exactly with each other, so agreement of the permuted / translated runs is a consequence of '
-                  'C20_vpsc_permute_checked / C20_vpsc_translate_checked plus the per-run certificates. Replay-only (validation, not proof): libavoid routes twice, '
+                  'C20_vpsc_permute_checked / C20_vpsc_translate_checked plus the per-run certificates. The STATIC vpsc::Solver gets the same replays (part b2, '
+                  'harness command S, DAG inputs = its domain, scale 1): solve() and satisfy() twice in one process (bit-identical), translated (1e-9), and solve() '
+                  'under renumbered variables / reordered constraints - random DAGs with the reversed constraint order and 3 random renumberings, small DAGs (3-5 '
+                  'variables) under EVERY variable permutation x constraint order forward / reversed, corpus/c20_static_permute.json first; all orderings must return '
+                  'the same positions (1e-9 * scale; the optimum is unique, vpsc_permute covers any solver whose result passes the certificate) and the base run is '
+                  'decided by kkt_ok, which names the wrong run. satisfy() alone promises feasibility, not a unique point, so under renumbering it is judged on '
+                  'feasibility only; its translation replay is validation without a theorem (C20_vpsc_translate_model is about the IncSolver model). '
+                  'Replay-only (validation, not proof): libavoid routes twice, '
                   'translated exactly, cost under the 8 symmetries and under permuted insertion order, on separated integer rectangles, with the default '
                   'penalties and (part c2) under sampled non-default configurations: all nine RoutingParameters at 0 / one or two positive dyadic values, all '
                   'seven RoutingOptions on/off (histogram in the evidence); there the compared cost is recomputed from the raw route() as cost() in makepath.cpp '
